@@ -92,6 +92,7 @@ func c12(r *Report) {
 		Alt: []Check{CmpCheck("field.Filter == nil", token.EQL, FieldV("Field", "Filter"), NilV(), true), CmpCheck("optionalInvalid == 0", token.EQL, TypeIsV("int"), IntV(0), true)}})
 	r.Gate(Gate{ID: "C12.wallet.matchField.value-present", Fn: mfi, Effect: ReturnsBool(0, true), Check: CmpCheck("value == nil is false", token.EQL, CallV(Fn(pePkg, "", "getValueAtPath"), 0), NilV(), false),
 		Alt: []Check{CmpCheck("optionalInvalid == 0", token.EQL, TypeIsV("int"), IntV(0), true)}})
+	c12MatchedValue(r, mfi)
 	mfl := p.Func(pePkg, "", "matchFilter")
 	r.Gate(Gate{ID: "C12.wallet.matchFilter.type-compared-on-every-arm", Fn: mfl, Effect: ReturnsBool(0, true),
 		Check: CmpCheck("filter.Type == <type name>", token.EQL, FieldV("Filter", "Type"), AnyV(), true),
@@ -693,4 +694,50 @@ func c12Apply(r *Report) {
 		Alt: []Check{CmpCheck("Count == nil", token.EQL, FieldV("SubmissionRequirement", "Count"), NilV(), true), CmpCheck("Rule == \"all\"", token.EQL, FieldV("SubmissionRequirement", "Rule"), StrV("all"), true)}})
 	r.Gate(Gate{ID: "C12.wallet.rules.min-needs-enough", Fn: fn, Effect: SuccessReturn(), Check: CmpCheck("selectableCount < *Min is false", token.LSS, cnt, PathV("Min"), false),
 		Alt: []Check{CmpCheck("Min == nil", token.EQL, FieldV("SubmissionRequirement", "Min"), NilV(), true), CmpCheck("Count == nil is false", token.EQL, FieldV("SubmissionRequirement", "Count"), NilV(), false), CmpCheck("Rule == \"all\"", token.EQL, FieldV("SubmissionRequirement", "Rule"), StrV("all"), true)}})
+}
+
+// c12MatchedValue: when a filter is present, the value matchField reports is the value matchFilter matched (the regex
+// capture), not the raw value at the path.
+func c12MatchedValue(r *Report, fn *ssa.Function) {
+	rule := "ARG: a return of matchField that follows a successful matchFilter hands out matchFilter's matched value (result #1)"
+	key := "C12.claims.value-is-the-filters-match"
+	if fn == nil {
+		r.Lost(key, rule, "matchField not found")
+		return
+	}
+	calls := Calls(fn, Fn(pePkg, "", "matchFilter"))
+	if len(calls) != 1 {
+		r.Lost(key, rule, fmt.Sprintf("%d matchFilter calls", len(calls)))
+		return
+	}
+	call := calls[0].(*ssa.Call)
+	n := 0
+	for _, b := range fn.Blocks {
+		ret, ok := b.Instrs[len(b.Instrs)-1].(*ssa.Return)
+		if !ok || len(ret.Results) != 3 {
+			continue
+		}
+		if t, isB := ConstBool(ret.Results[0]); !isB || !t {
+			continue
+		}
+		// is this return behind `match == true`?
+		if !FactHoldsValue(b, func(v ssa.Value) bool {
+			ex, ok := v.(*ssa.Extract)
+			return ok && ex.Tuple == ssa.Value(call) && ex.Index == 0
+		}, true) {
+			continue
+		}
+		n++
+		ex, ok := ret.Results[1].(*ssa.Extract)
+		if !ok || ex.Tuple != ssa.Value(call) || ex.Index != 1 {
+			r.Bad(key, rule, r.P.Pos(ret.Pos()), "the value returned after a filter match is "+AccessPath(ret.Results[1], 0))
+			return
+		}
+	}
+	r.Sites += n
+	if n == 0 {
+		r.Lost(key, rule, "no return behind a successful matchFilter found")
+		return
+	}
+	r.OK(key, rule, r.P.Pos(call.Pos()), fmt.Sprintf("%d return(s)", n), true)
 }
